@@ -60,6 +60,19 @@ template <class L> int layout_code() {
   return 9;
 }
 
+// an accessor over interleaved storage: element i lives at p[2*i] and offset(p, i) is p + 2*i (its own offset_policy).  A sub-view whose
+// handle is formed by plain pointer arithmetic instead of accessor.offset() starts at the wrong place.  Reported addresses are divided by
+// the accessor's scale (a non-multiple is reported as an impossible negative number), so the model needs no notion of it.
+template <class T> struct scaled_acc {
+  using offset_policy = scaled_acc; using element_type = T; using reference = T &; using data_handle_type = T *;
+  constexpr scaled_acc() noexcept = default;
+  constexpr reference access(data_handle_type p, size_t i) const noexcept { return p[2 * i]; }
+  constexpr data_handle_type offset(data_handle_type p, size_t i) const noexcept { return p + 2 * i; }
+};
+template <class A> struct acc_scale { static constexpr long value = 1; };
+template <class T> struct acc_scale<scaled_acc<T>> { static constexpr long value = 2; };
+template <class A> i128 norm_addr(i128 d) { const i128 sc = acc_scale<A>::value; return (d % sc == 0) ? d / sc : -(i128(1) << 40) - d; }
+
 // report one level: `prev` is the view that was sliced, `sub` the result, `slices` the specifiers
 template <class Prev, class Sub, class... Sl>
 void report_level(Out &o, const int *base, int level, const Prev &prev, const Sub &sub, i128 map_offset, const Sl &...slices) {
@@ -78,7 +91,7 @@ void report_level(Out &o, const int *base, int level, const Prev &prev, const Su
   o.field(("st" + L).c_str(), Out::list(st));
   o.field(("of" + L).c_str(), str_i128(map_offset));
   o.field(("sp" + L).c_str(), str_i128(to_i128(sub.mapping().required_span_size())));
-  o.field(("h" + L).c_str(), str_i128((i128)(sub.data_handle() - base)));
+  o.field(("h" + L).c_str(), str_i128(norm_addr<typename Sub::accessor_type>((i128)(sub.data_handle() - base))));
   // index type, element type and the accessor's offset_policy are carried over: reported in the field "ac" (0 = all three hold)
   // element addresses: of the result, and of the source element each must alias
   bool idxs[] = {sl_traits<Sl>::index..., false};
@@ -89,10 +102,10 @@ void report_level(Out &o, const int *base, int level, const Prev &prev, const Su
   if (n > 0 && n <= 400) {
     std::vector<i128> j(R, 0);
     for (;;) {
-      ad.push_back((i128)(&md_at(sub, j, std::make_index_sequence<R>{}) - base));
+      ad.push_back(norm_addr<typename Sub::accessor_type>((i128)(&md_at(sub, j, std::make_index_sequence<R>{}) - base)));
       std::vector<i128> pi(PR, 0); size_t m = 0;
       for (size_t k = 0; k < PR; ++k) { if (idxs[k]) pi[k] = firsts[k]; else { pi[k] = firsts[k] + j[m] * steps[k]; ++m; } }
-      sa.push_back((i128)(&md_at(prev, pi, std::make_index_sequence<PR>{}) - base));
+      sa.push_back(norm_addr<typename Prev::accessor_type>((i128)(&md_at(prev, pi, std::make_index_sequence<PR>{}) - base)));
       long k = (long)R - 1;
       for (; k >= 0; --k) { if (j[k] + 1 < to_i128(sub.extent(k))) { j[k]++; break; } j[k] = 0; }
       if (k < 0) break;
@@ -120,11 +133,11 @@ template <class T> struct aligned_acc {
 };
 template <class M, int ACC = 0> struct SubCtx {
   using E = typename M::extents_type; using LT = typename M::layout_type;
-  using A = std::conditional_t<ACC == 0, Kokkos::default_accessor<int>, aligned_acc<int>>;
+  using A = std::conditional_t<ACC == 0, Kokkos::default_accessor<int>, std::conditional_t<ACC == 1, aligned_acc<int>, scaled_acc<int>>>;
   std::vector<int> buf;
   Kokkos::mdspan<int, E, LT, A> md;
   static size_t alloc_size(const M &m) { i128 sp = to_i128(m.required_span_size()); return (sp > 0 && sp <= (i128(1) << 20)) ? (size_t)sp : 1; }
-  explicit SubCtx(const M &m) : buf(alloc_size(m), 0), md(buf.data(), m, A()) {}
+  explicit SubCtx(const M &m) : buf(alloc_size(m) * (size_t)acc_scale<A>::value, 0), md(buf.data(), m, A()) {}
 };
 
 } // namespace drv
